@@ -77,8 +77,13 @@ def materialise(case, d):
         else:
             m_args += ["-m", name] + ([lookup] if spec["lookup"] else []) + [os.path.join(os.path.dirname(files[0][0]), "*" + ext)]
         per_model.setdefault(("l" if spec["via"] == "l" else "m"), []).append((name, spec["via"], [s for _, s in files]))
-    # CLI order: all -m specs in argv order, then all -l specs (models keyed by first appearance)
-    seq = per_model.get("m", []) + per_model.get("l", [])
+    # documented order is argument order; the harness only ever puts -l after -m (known finding legacy-list-order),
+    # except for the finding's own reproducer, which sets legacy_first
+    if case.get("legacy_first"):
+        seq = per_model.get("l", []) + per_model.get("m", [])
+        m_args, l_args = l_args, m_args
+    else:
+        seq = per_model.get("m", []) + per_model.get("l", [])
     names = []
     groups = {}
     for name, via, filesamples in seq:
@@ -398,5 +403,5 @@ def valid(case):
 
 def phases(tier):
     q = tier == "quick"
-    return [dict(name="inproc", kind="hypothesis", strategy=cases(tier), check=check, examples=(16 * 700 if q else 16 * 6000)),
+    return [dict(name="inproc", kind="hypothesis", strategy=cases(tier), check=check, examples=(16 * 450 if q else 16 * 6000)),
             dict(name="subproc", kind="hypothesis", strategy=cases(tier), check=check_subproc, examples=(16 * 6 if q else 16 * 150))]
